@@ -217,9 +217,10 @@ impl Pool {
             .as_secs() as u32;
         self.conn
             .query_row(
+                /* SUM() over no rows is NULL, which is not a count: report zero leases as 0. */
                 "SELECT
-             SUM(CASE WHEN expiry < ?1 THEN 1 ELSE 0 END) as active,
-             SUM(CASE WHEN expiry >= ?1 THEN 1 ELSE 0 END) as expired
+             COALESCE(SUM(CASE WHEN expiry > ?1 THEN 1 ELSE 0 END), 0) as active,
+             COALESCE(SUM(CASE WHEN expiry <= ?1 THEN 1 ELSE 0 END), 0) as expired
              FROM leases",
                 rusqlite::params![ts],
                 |row| Ok((row.get(0)?, row.get(1)?)),
